@@ -85,6 +85,14 @@ def main():
                                                  "note": "portable Morton index through a function-local static table with thread-safe (magic static) initialisation - correct"}
     index["benign_hilbert_mutex_cache"] = {"patch": "mutants/benign_hilbert_mutex_cache.patch", "properties": [], "silent": ["C16", "C14", "C01"],
                                            "note": "process-wide one-entry index cache in the Hilbert view, protected by a std::mutex - correct"}
+    index["benign_nn_round_half_away"] = {"patch": "mutants/benign_nn_round_half_away.patch", "properties": [], "silent": ["C04", "C02", "C05", "C15"],
+                                          "note": "nearest neighbour with std::lround (ties away from zero instead of to even) - still a closest lattice point"}
+    index["benign_linear_1d_lerp_form"] = {"patch": "mutants/benign_linear_1d_lerp_form.patch", "properties": [], "silent": ["C03", "C02"],
+                                           "note": "1-D linear path written as v0 + a*(v1-v0) - the same interpolant up to rounding"}
+    index["benign_reworded_static_asserts"] = {"patch": "mutants/benign_reworded_static_asserts.patch", "properties": [], "silent": ["C13"],
+                                               "note": "two kind-check messages reworded"}
+    index["benign_clamp_view_padding"] = {"patch": "mutants/benign_clamp_view_padding.patch", "properties": [], "silent": ["C13", "C02", "C10", "C17"],
+                                          "note": "clamp's view grows by 32 bytes: some deep stacks now exceed field_view's 256-byte limit (ill-kinded by the library's own rule), nothing else changes"}
     # seeded changes delivered by independent sub-agents (seeded/<id>/meta.json carries "check_with")
     import glob
     for mp in sorted(glob.glob(os.path.join(V, "seeded/*/meta.json"))):
